@@ -426,14 +426,21 @@ pub fn gen_f64(t: &mut Tape) -> f64 {
         6 => (t.draw(2_000_000) as f64 - 1_000_000.0) / 1000.0,
         7 => *t.pick(&[f64::MAX, f64::MIN, f64::MIN_POSITIVE, 5e-324, f64::EPSILON, 9007199254740993.0, 1e21, 1e-7, 0.1, 1.0 / 3.0]),
         8 => f64::from_bits(t.bits() & 0x000f_ffff_ffff_ffff), // subnormal
+        9 => {
+            // NaNs other than the constant: sign bit set, signalling, with a payload
+            // (what 0.0 / 0.0 yields at run time on x86-64 has its sign bit set)
+            let v = match t.draw(4) {
+                0 => -f64::NAN,
+                1 => f64::from_bits(0xfff8_0000_0000_0000),
+                2 => f64::from_bits(0x7ff0_0000_0000_0001),
+                _ => f64::from_bits(0x7ff0_0000_0000_0000 | (t.bits() & 0x800f_ffff_ffff_ffff) | 1),
+            };
+            debug_assert!(v.is_nan());
+            v
+        }
         _ => {
-            // any bit pattern; non-finite ones collapse to the canonical forms
-            let v = f64::from_bits(t.bits());
-            if v.is_nan() {
-                f64::NAN
-            } else {
-                v
-            }
+            // any bit pattern (NaNs keep their sign and payload)
+            f64::from_bits(t.bits())
         }
     }
 }
